@@ -148,6 +148,7 @@ def run_protocol(ctx, rep, jobs, label):
         os.unlink(p)
     rep.coverage_extra["generator_protocol_traces/" + label] = {
         "traces": len(recs), "events": sum(len(r["ev"]) for r in recs), "verdicts": tally, "rejected_sample": samples}
+    del recs
     bad = {k: v for k, v in tally.items() if k != "accepted"}
     if bad:
         print("NOTE: PROTOCOL (diagnostic only): %s: %s" % (label, json.dumps(bad, sort_keys=True)))
